@@ -47,6 +47,8 @@ type wScreen struct {
 	mouseFlags   MouseFlags
 
 	cursorStyle CursorStyle
+	cursorx     int // cursor position as requested by the application
+	cursory     int
 
 	quit     chan struct{}
 	evch     chan Event
@@ -64,6 +66,7 @@ func (t *wScreen) Init() error {
 	t.Lock()
 	t.running = true
 	t.style = StyleDefault
+	t.cursorx, t.cursory = -1, -1
 	t.cells.Resize(t.w, t.h)
 	t.Unlock()
 
@@ -165,8 +168,20 @@ func (t *wScreen) drawCell(x, y int) int {
 
 func (t *wScreen) ShowCursor(x, y int) {
 	t.Lock()
-	js.Global().Call("showCursor", x, y)
+	t.cursorx, t.cursory = x, y
+	t.showCursor()
 	t.Unlock()
+}
+
+// showCursor tells the page where the cursor is.  A position outside the
+// grid hides the cursor; the page script indexes its grid with whatever it
+// is given, so it must only ever see a valid position or (-1, -1).
+func (t *wScreen) showCursor() {
+	x, y := t.cursorx, t.cursory
+	if x < 0 || y < 0 || x >= t.w || y >= t.h {
+		x, y = -1, -1
+	}
+	js.Global().Call("showCursor", x, y)
 }
 
 func (t *wScreen) SetCursor(cs CursorStyle, cc Color) {
@@ -472,8 +487,12 @@ func (t *wScreen) SetSize(w, h int) {
 
 	t.cells.Invalidate()
 	t.cells.Resize(w, h)
+	// take the cursor off the old grid before it is replaced, and put it
+	// back if it still fits
+	js.Global().Call("showCursor", -1, -1)
 	js.Global().Call("resize", w, h)
 	t.w, t.h = w, h
+	t.showCursor()
 	t.postEvent(NewEventResize(w, h))
 }
 
